@@ -668,8 +668,29 @@ def _dt(dtype, default=None):
     raise Unsupported(f"dtype {dtype!r}")
 
 
+def _pick(items, k):
+    if isinstance(k, int):
+        return items[k]
+    r = items[-1]
+    for j in range(len(items) - 2, -1, -1):
+        r = V.ite(V.compare("==", k, j), items[j], r)
+    return r
+
+
 @reg("numpy.array")
 def np_array(x, dtype=None, copy=True, **kw):
+    L_ = _loops()
+    if isinstance(x, L_.SList) and not isinstance(x.n, int):
+        probe = x.fn(Sym(z3.Int("probe!row")))
+        if isinstance(probe, tuple):
+            # a list of n equal-length tuples: shape (n, len) -- but numpy gives shape (0,) for the empty list
+            p = V.PATH[0]
+            empty = p.branch(V.compare("==", x.n, 0)) if p is not None else False
+            if empty:
+                return SArr((0,), lambda idx: 0, _dt(dtype) or "real")
+            w = len(probe)
+            fn = x.fn
+            return SArr((x.n, w), lambda idx: _pick(fn(idx[0]), idx[1]), _dt(dtype) or "real")
     if dtype is B.get("object") or dtype == "object":
         # object array: nested lists give the shape, the leaves are kept as they are
         shape = []
@@ -2052,6 +2073,32 @@ for _nm, _k in (("binary_erosion", "bool"), ("binary_dilation", "bool"), ("binar
                 ("binary_closing", "bool"), ("distance_transform_edt", "real"), ("gaussian_filter", "real"),
                 ("gaussian_laplace", "real"), ("maximum_filter", "real"), ("shift", "real"), ("zoom", "real")):
     REG["scipy.ndimage." + _nm] = _ndi_recorded(_nm, _k)
+@reg("scipy.ndimage.label")
+@wants_interp
+def _ndi_label(interp, input, structure=None, output=None):
+    """connected components: a label image of the input's shape and the number of components (any number >= 0)"""
+    a = A.from_nested(input)
+    n = V.fresh("n_components", "int")
+    interp.path.assume(V.compare(">=", n, 0))
+    return _uf_array("ndi_label", a.shape, "int"), n
+
+
+@reg("scipy.ndimage.center_of_mass")
+def _ndi_center_of_mass(input, labels=None, index=None):
+    """one centre (a tuple of ndim coordinates, anywhere in the image) per requested label"""
+    a = A.from_nested(input)
+    if index is None:
+        return tuple(V.fresh("com", "real") for _ in range(a.ndim))
+    L = _loops()
+    si = L.siter(index)
+    nd = a.ndim
+    f = z3.Function(V.fresh_name("com"), z3.IntSort(), z3.IntSort(), z3.RealSort())
+    if si is None:
+        items = list(index)
+        return [tuple(Sym(f(z3.IntVal(i), z3.IntVal(c))) for c in range(nd)) for i in range(len(items))]
+    return L.SList(si[0], lambda i: tuple(Sym(f(V.lift(i), z3.IntVal(c))) for c in range(nd)))
+
+
 REG["acryo._typed_scipy.shift"] = REG["scipy.ndimage.shift"]
 REG["acryo._typed_scipy.zoom"] = REG["scipy.ndimage.zoom"]
 
